@@ -739,6 +739,98 @@ func (g *gen) opSysTransfer() bool {
 	return true
 }
 
+// opPayableMatrix: a destination the payability oracle refuses, then PLAIN transfers to it (argument count exactly at the
+// minimum, direct / asynchronous call, ordinary caller) with and without the return-after-error flag, for the three transfer
+// functions, fungible and NFT items, same shard and (delivered at once) cross shard: none may be credited.
+func (g *gen) opPayableMatrix() bool {
+	if len(g.contracts) == 0 {
+		return false
+	}
+	d := g.pick(g.contracts)
+	g.emitf("payable %s %s", hx(d), []string{"no", "no", "err"}[g.r.Intn(3)])
+	for k := 0; k < 4; k++ {
+		x, ok := g.pickHeld(anyPos)
+		if !ok || bytes.Equal(x.a, d) {
+			continue
+		}
+		var sp spec
+		switch {
+		case x.h.nonce == 0 && g.r.Intn(2) == 0:
+			sp = g.user(oracle.FnTransfer, x.a, d, bigGas, x.h.tok, []byte{1})
+		case x.h.nonce == 0:
+			sp = g.user(oracle.FnMultiTransfer, x.a, x.a, bigGas, d, be(1), x.h.tok, []byte{}, []byte{1})
+		case g.r.Intn(2) == 0:
+			sp = g.user(oracle.FnNFTTransfer, x.a, x.a, bigGas, x.h.tok, x.h.nb(), []byte{1}, d)
+		default:
+			sp = g.user(oracle.FnMultiTransfer, x.a, x.a, bigGas, d, be(1), x.h.tok, x.h.nb(), []byte{1})
+		}
+		sp.rae = g.r.Intn(2) == 0
+		sp.ct = g.r.Intn(2)
+		g.do(sp)
+	}
+	g.drain()
+	if g.r.Intn(2) == 0 {
+		g.emitf("payable %s yes", hx(d))
+	}
+	return true
+}
+
+// opThinSecondLeg: a cross-shard ESDTTransfer with an attached call to a contract, with so little gas that the leg on the
+// destination shard runs with less than the function's own cost (nothing left, or a few units).
+func (g *gen) opThinSecondLeg() bool {
+	x, ok := g.pickHeld(isFung)
+	if !ok {
+		return false
+	}
+	var l [][]byte
+	for _, c := range g.contracts {
+		if g.shardOf(c) != g.shardOf(x.a) {
+			l = append(l, c)
+		}
+	}
+	if len(l) == 0 {
+		return false
+	}
+	c := g.cost(oracle.FnTransfer)
+	gas := c + uint64(g.r.Intn(int(c)+1))
+	if g.r.Intn(3) == 0 {
+		gas = c
+	}
+	args := [][]byte{x.h.tok, []byte{1}, []byte("doSomething")}
+	if g.r.Intn(2) == 0 {
+		args = append(args, []byte{7})
+	}
+	g.do(g.user(oracle.FnTransfer, x.a, g.pick(l), gas, args...))
+	g.drain()
+	return true
+}
+
+// opFrozenZeroCredit: an account is frozen for a token it does not hold (the entry {value 0, frozen} is persisted), then
+// credited under the return-after-error flag (the only credit a frozen entry accepts), then unfrozen.
+func (g *gen) opFrozenZeroCredit() bool {
+	x, ok := g.pickHeld(isFung)
+	if !ok {
+		return false
+	}
+	var l [][]byte
+	for _, a := range g.accounts {
+		if !bytes.Equal(a, x.a) && g.shardOf(a) == g.shardOf(x.a) && g.holdingOf(a, x.h.tok, 0).Sign() == 0 {
+			l = append(l, a)
+		}
+	}
+	if len(l) == 0 {
+		return false
+	}
+	a := g.pick(l)
+	g.do(g.sys(oracle.FnFreeze, a, x.h.tok))
+	sp := g.user(oracle.FnTransfer, x.a, a, bigGas, x.h.tok, []byte{1})
+	sp.rae = true
+	sp.ct = 2
+	g.do(sp)
+	g.do(g.sys(oracle.FnUnFreeze, a, x.h.tok))
+	return true
+}
+
 func (g *gen) handOverInFlight(tok []byte) bool {
 	for _, m := range g.c.Pending() {
 		if m.Fn == oracle.FnHandOver && len(m.Args) > 0 && bytes.Equal(m.Args[0], tok) {
